@@ -44,6 +44,14 @@ def CHACHA_RULES(kind):
     return r
 
 
+NOSTD_RULES = [
+    (r"c01_refill_l0_dr(0|2|10)$", dict(filter="c01_refill_l0", props=["C03"], tier="thorough", funcs=CH_CORE, timeout=1800)),
+    (r"c01_refill4_l0_dr(0|1|2)$", dict(filter="c01_refill4_l0", props=["C03"], tier="thorough", funcs=CH_CORE, timeout=3000)),
+    (r"c01_refill_rounds_l0_dr(0|4|10)$", dict(filter="c01_refill_rounds_l0", props=["C03"], tier="thorough", funcs=CH_CORE, timeout=1800)),
+    (r"c01_new_(chacha20|ietf|xchacha20)$", dict(filter="c01_new_", props=["C03"], tier="thorough", funcs=CH_BUF)),
+    (r"c02_seek_(chacha20|ietf)_u64$", dict(filter="c02_seek_", props=["C03"], tier="thorough", funcs=CH_BUF)),
+]
+
 TF_FUNCS = "threefish_cipher::{mix, inv_mix, read_u64v_le, write_u64v_le, Threefish{256,512,1024}::{with_tweak, new, encrypt_block, decrypt_block}}"
 TF_RULES = [
     (r"c09_le_io", dict(filter="c09_", props=["C09", "C10", "C16"], tier="quick", funcs=TF_FUNCS)),
@@ -134,6 +142,38 @@ UNITS = {
         backend_note="no_simd build: portable backend",
         rules=CHACHA_RULES("generic"),
     ),
+    # no-std builds of c2-chacha / ppv-lite86: the dispatch macros select the backend at COMPILE time by
+    # cfg!(target_feature = ..); one unit per static arm, selected with -C target-feature (thorough tier, C03)
+    "chacha_nostd_sse2": dict(
+        template="kani/chacha", crate="chacha_h", zflags=["stubbing"], cargo_args=["--no-default-features"],
+        rustflags=RF_HOOK, native_replay=False,
+        backend_note="no-std build: compile-time dispatch arm sse2 selected by cfg!(target_feature)",
+        rules=NOSTD_RULES,
+    ),
+    "chacha_nostd_ssse3": dict(
+        template="kani/chacha", crate="chacha_h", zflags=["stubbing"], cargo_args=["--no-default-features"],
+        rustflags=RF_HOOK + " -C target-feature=+ssse3", native_replay=False,
+        backend_note="no-std build: compile-time dispatch arm ssse3 selected by cfg!(target_feature)",
+        rules=NOSTD_RULES,
+    ),
+    "chacha_nostd_sse41": dict(
+        template="kani/chacha", crate="chacha_h", zflags=["stubbing"], cargo_args=["--no-default-features"],
+        rustflags=RF_HOOK + " -C target-feature=+sse4.1", native_replay=False,
+        backend_note="no-std build: compile-time dispatch arm sse41 selected by cfg!(target_feature)",
+        rules=NOSTD_RULES,
+    ),
+    "chacha_nostd_avx": dict(
+        template="kani/chacha", crate="chacha_h", zflags=["stubbing"], cargo_args=["--no-default-features"],
+        rustflags=RF_HOOK + " -C target-feature=+avx", native_replay=False,
+        backend_note="no-std build: compile-time dispatch arm avx selected by cfg!(target_feature)",
+        rules=NOSTD_RULES,
+    ),
+    "chacha_nostd_avx2": dict(
+        template="kani/chacha", crate="chacha_h", zflags=["stubbing"], cargo_args=["--no-default-features"],
+        rustflags=RF_HOOK + " -C target-feature=+avx2", native_replay=False,
+        backend_note="no-std build: compile-time dispatch arm avx2 selected by cfg!(target_feature)",
+        rules=NOSTD_RULES,
+    ),
     "threefish": dict(
         template="kani/threefish", crate="threefish_h", zflags=["stubbing"], cargo_args=[], rustflags=RF_HOOK,
         backend_note="default build (rounds unrolled by unroll8!)",
@@ -172,7 +212,8 @@ PROP_UNITS = {
     "C02": ["chacha_x86", "chacha_generic"],
     "C11": ["chacha_x86", "chacha_generic"],
     "C04": ["hashes", "hashes_generic"], "C05": ["hashes", "threefish"], "C06": ["hashes", "hashes_generic"],
-    "C03": ["ppv_x86", "ppv_generic", "chacha_x86", "chacha_generic", "hashes", "hashes_generic"],
+    "C03": ["ppv_x86", "ppv_generic", "chacha_x86", "chacha_generic", "hashes", "hashes_generic",
+            "chacha_nostd_sse2", "chacha_nostd_ssse3", "chacha_nostd_sse41", "chacha_nostd_avx", "chacha_nostd_avx2"],
     "C16": ["ppv_x86", "ppv_generic", "chacha_x86", "hashes", "threefish"], "C07": ["hashes"], "C08": ["hashes"], "C17": ["hashes"],
     "C09": ["threefish", "threefish_no_unroll"],
     "C10": ["threefish", "threefish_no_unroll"],
